@@ -641,12 +641,36 @@ Definition proc_fuel (cfg : config) (i : step) : nat :=
 Definition same_set (a b : list N) : bool :=
   forallb (fun x => mem x b) a && forallb (fun x => mem x a) b.
 
-Definition accept_ev (cfg : config) (s : gstate) (ev : tev) : ares :=
+(* A failed try_acquire_process_slot is not logged.  The log shows it as: thread [i] was about to
+   run a WaitingToRun action (not from ProcessPoolFull) and its next iteration reports
+   WaitingToRun(FromProcessPoolFull).  The unlogged test happened somewhere between the two
+   iteration lines of [i]; it is accepted iff the counter was 0 at some moment in that window
+   ([zero_seen], maintained by [accept_from]). *)
+Definition failed_acquire (cfg : config) (s : gstate) (i : step) (l : lstate) : bool :=
+  fix_atomic_acquire cfg &&
+  lstate_eqb l (WaitingToRun, Some ProcessPoolFull) &&
+  match tget (thr s) i with
+  | Some t => match loc t, ph t, status t with
+              | (WaitingToRun, Some e), PAct, TRun => negb (event_eqb e ProcessPoolFull)
+              | _, _, _ => false
+              end
+  | None => false
+  end.
+
+Definition force_pool_full (s : gstate) (i : step) : ares :=
+  match tget (thr s) i with
+  | Some t => AOk (with_thr s i (set_loc t (WaitingToRun, Some ProcessPoolFull) PSend))
+  | None => ARej R_NOTHREAD
+  end.
+
+Definition accept_ev (cfg : config) (s : gstate) (zero_seen : bool) (ev : tev) : ares :=
   match ev with
   | TIter i l slot =>
-    abind (flush cfg s i) (fun s1 =>
+    (* [slot] is read by the hook outside the trace mutex: it is informative only.  The exact
+       slot values are those of the acquire / release lines (logged under the counter's lock). *)
+    abind (if failed_acquire cfg s i l then (if zero_seen then force_pool_full s i else ARej R_SLOT)
+           else flush cfg s i) (fun s1 =>
       if negb (at_loc s1 i (fst l) (snd l) PSend) then ARej R_LOC
-      else if negb (N.eqb (slot_val cfg s1 i) slot) then ARej R_SLOT
       else do_step cfg s1 (Step i))
   | TPoll i obs =>
     if negb (at_loc s i WaitingDependencySteps (Some DependencyStepsRunning) PAct) then ARej R_LOC
@@ -710,18 +734,34 @@ Definition accept_ev (cfg : config) (s : gstate) (ev : tev) : ares :=
   end.
 
 (* returns the final state, or the index of the first rejected event and the reason *)
-Fixpoint accept_from (cfg : config) (s : gstate) (evs : list tev) (n : N) : gstate + (N * N) :=
+Definition tev_step (ev : tev) : step :=
+  match ev with
+  | TIter i _ _ | TPoll i _ | TBull i _ | TStart i | TAcquire i _ | TExit i _ | TRelease i _ | TEnd i _ => i
+  end.
+Definition is_iter (ev : tev) : bool := match ev with TIter _ _ _ => true | _ => false end.
+
+Definition pool_empty (cfg : config) (s : gstate) : bool := N.eqb (slot_val cfg s 0) 0.
+
+(* [zs]: the steps for which the (shared) counter has been 0 at some moment since their last
+   iteration line.  Returns the final state, or the index of the first rejected event and the reason *)
+Fixpoint accept_from (cfg : config) (s : gstate) (zs : list step) (evs : list tev) (n : N) : gstate + (N * N) :=
   match evs with
   | [] => inl s
-  | ev :: r => match accept_ev cfg s ev with
-               | AOk s' => accept_from cfg s' r (N.succ n)
-               | ARej c => inr (n, c)
-               end
+  | ev :: r =>
+    let i := tev_step ev in
+    match accept_ev cfg s (mem i zs || pool_empty cfg s) ev with
+    | AOk s' =>
+      let zs1 := if is_iter ev then filter (fun j => negb (N.eqb j i)) zs else zs in
+      let zs2 := if fix_shared_pool cfg && (pool_empty cfg s || pool_empty cfg s') then step_ids cfg else zs1 in
+      let zs3 := if is_iter ev && negb (pool_empty cfg s') then filter (fun j => negb (N.eqb j i)) zs2 else zs2 in
+      accept_from cfg s' zs3 r (N.succ n)
+    | ARej c => inr (n, c)
+    end
   end.
 
 Definition accept (cfg : config) (evs : list tev) : option (gstate + (N * N)) :=
   match init cfg with
-  | Accepted s0 => Some (accept_from cfg s0 evs 0)
+  | Accepted s0 => Some (accept_from cfg s0 [] evs 0)
   | Rejected _ => None
   end.
 
